@@ -291,11 +291,11 @@ Ltac solve_angle :=
         | vm_compute; reflexivity | vm_compute; reflexivity | vm_compute; reflexivity
         | unfold envD; den_simpl; subst m0;
           pow4 m1; pow4 m2; pow4 m3; pow4 m12; pow4 m13; pow4 m23;
-          rewrite ?Hm1, ?Hm2, ?Hm3, ?Hs1, ?Hs2, ?Hs3; v4_unfold; ring
+          rewrite ?Hm1, ?Hm2, ?Hm3, ?Hs1, ?Hs2, ?Hs3; v4_unfold; field
         | unfold envD; den_simpl; subst m0;
           pow4 m1; pow4 m2; pow4 m3; pow4 m12; pow4 m13; pow4 m23;
           rewrite ?Hm1, ?Hm2, ?Hm3, ?Hs1, ?Hs2, ?Hs3;
-          first [ left; split; v4_unfold; ring | right; split; v4_unfold; ring ]
+          first [ left; split; v4_unfold; field | right; split; v4_unfold; field ]
         | | | ]
       | destruct TA as [TA1 TA2]; split; [exact TA1|];
         rewrite TA2; f_equal; unfold cosf, Rdiv; ring ]
